@@ -37,7 +37,7 @@ OpsOf(k) ==
   (IF k \in {"Path", "PathT", "Point", "Length"} \cup Segments THEN {"add"} ELSE {}) \cup
   (IF k \in {"Path", "PathT"} THEN {"radd"} ELSE {}) \cup
   (IF k \in Segments THEN {"pathadd", "addpath", "subadd", "addsub"} ELSE {}) \cup      \* ... and Subpath + x, x + Subpath
-  (IF k \in {"Path", "PathT"} THEN {"pathadd", "pathiadd"} ELSE {}) \cup                  \* x a path as the RIGHT operand of Path + x, Path += x                                   \* Path + x, x + Path (x a segment)                                      \* "path data" + x
+  (IF k \in {"Path", "PathT"} THEN {"pathadd", "pathiadd", "pathaddview"} ELSE {}) \cup      \* pathaddview: Path + x.subpath(0)                  \* x a path as the RIGHT operand of Path + x, Path += x                                   \* Path + x, x + Path (x a segment)                                      \* "path data" + x
   (IF k \in Segments \cup Shapes \cup Groups \cup {"Point", "Text", "Image", "Subpath"} THEN {"mulid"} ELSE {})   \* x * identity
 
 \* kind of the derived object
@@ -45,7 +45,7 @@ ResultKind(k, op) ==
   IF op = "topath" THEN "Path"
   ELSE IF op \in {"add", "addsub"} /\ k \in Segments THEN "Path"
   ELSE IF op = "subadd" THEN "Subpath"
-  ELSE IF op \in {"pathadd", "pathiadd"} THEN "Path"
+  ELSE IF op \in {"pathadd", "pathiadd", "pathaddview"} THEN "Path"
   ELSE IF op \in {"mul", "copy", "abs"} /\ k = "Subpath" THEN "Subpath"
   ELSE k
 
